@@ -167,8 +167,9 @@ void Driver::DriverImpl::StepSockets(Duration timeout)
 
 void Driver::DriverImpl::Run()
 {
-  shouldStop = false;
-  while(!shouldStop) {
+  // consume the stop request on exit rather than clearing it on entry,
+  // so that a Stop() issued before Run() was entered is not lost
+  while(!shouldStop.exchange(false)) {
     Step(noTimeout);
   }
 }
